@@ -2,9 +2,14 @@
 model's meaning.
 
 E4 over configurations: all 8 settings x every model of the C11 families that has a loop or a function
-call (plus loop+function and delay models).  Variables (names, order, Python types, attribute values,
-outputs, delay states) must be identical to the default setting and the four output functions must
-agree numerically with it on the grid.
+call (plus loop+function and delay models) x the loop-index families of this module: loops (for-equations,
+initial for-equations, for-statements of functions, nested loops) whose bodies reference the same array
+through up to 2 (thorough: 3) subscripts, each drawn from a fixed set of forms of the loop variable
+(identity, offsets, stride, reversed, non-linear, through a user function of Integer type), over every
+loop length 1..4.  Variables (names, order, Python types, attribute values, outputs, delay states) must be
+identical to the default setting and the four output functions must agree numerically with it on the
+grid; where the reference evaluator (vf.ref.mast, C11's machinery) covers the model, the residuals of
+every setting are also compared with the reference, top-level equation by top-level equation.
 """
 import itertools
 
@@ -12,6 +17,8 @@ import numpy as np
 
 from vf.checks import c11
 from vf.core import cas, common
+from vf.ref import expr as X
+from vf.ref import mast as M
 from vf.ref.mast import B, N, V, Decl, Func, Model
 
 LEVEL = "exploration"
@@ -37,8 +44,168 @@ def extra_models():
     return out
 
 
+# ---- loop-index families ----------------------------------------------------------------------------------
+#
+# A loop body that references ONE array through several subscripts, each a form of the loop variable.  The
+# anchored code (Generator.get_indexed_symbol / ForLoop.register_indexed_symbol / get_integer) treats the
+# forms differently: the bare loop variable is recognised syntactically, everything else is evaluated through
+# a CasADi function of the loop variable that is inlined or not (inline_functions) and mapped inline or
+# serially (unroll_loops) over the loop values.
+
+SIZE = 26  # every form stays <= 25 for a loop variable <= 5
+
+
+def index_forms():
+    """(name, builder(loop variable, upper bound)) -- the subscript alphabet."""
+    one, two = N(1), N(2)
+    return [
+        ("v", lambda v, n: v),
+        ("v+1", lambda v, n: B("+", v, one)),
+        ("v-1", lambda v, n: B("-", v, one)),
+        ("2*v", lambda v, n: B("*", two, v)),
+        ("n+1-v", lambda v, n: B("-", B("+", n, one), v)),
+        ("v*v", lambda v, n: B("*", v, v)),
+        ("v*(v+1)/2", lambda v, n: B("/", B("*", v, B("+", v, one)), two)),
+        ("f(v)", lambda v, n: ("call", "f", (v,))),
+        ("f(v)+1", lambda v, n: B("+", ("call", "f", (v,)), one)),
+        ("f(v)-1", lambda v, n: B("-", ("call", "f", (v,)), one)),
+    ]
+
+
+def int_function(variant):
+    """Integer function of an Integer argument used inside subscripts."""
+    u, y = Decl("u", "Integer"), Decl("y", "Integer")
+    if variant == "lin":
+        body = B("+", V("u"), N(3))
+    else:  # non-linear: 1, 3, 7, 13, 21
+        body = B("+", B("*", V("u"), B("-", V("u"), N(1))), N(1))
+    return Func("f", [u], [y], [], [("assign", V("y"), body)])
+
+
+REAL_G = Func("g", [Decl("u")], [Decl("y")], [], [("assign", V("y"), B("+", B("*", N(2), V("u")), N(1)))])
+KINDS_QUICK = ("rhs", "lhs", "der", "call", "fstmt")
+KINDS_MORE = ("col", "row", "init", "nested-value", "nested-index")
+
+
+def _weighted(refs):
+    e = refs[0]
+    for k, r in enumerate(refs[1:], 1):
+        e = B("+", e, B("*", N(2**k), r))
+    return e
+
+
+def index_model(kind, names, lo, length, fvariant="lin"):
+    """One model of the loop-index family, or None when a subscript leaves 1..SIZE (checked with the
+    reference evaluator) or the kind needs more subscripts than given."""
+    forms = dict(index_forms())
+    hi = lo + length - 1
+    in_function = kind == "fstmt"
+    var = V("k") if in_function else V("i")
+    bound = N(hi) if in_function else V("n")
+    subs = [forms[nm](var, bound) for nm in names]
+    funcs = {}
+    uses_f = any(nm.startswith("f(") for nm in names)
+    if uses_f:
+        funcs["f"] = int_function(fvariant)
+    for v in range(lo, hi + 1):  # keep the model inside pymoca's (and Modelica's) domain: 1 <= subscript <= SIZE
+        for sub in subs:
+            val = M.evn(sub, {var[1]: v, "n": hi}, funcs)
+            if int(val) != val or not 1 <= int(val) <= SIZE:
+                return None
+    pn = Decl("n", "Integer", "parameter", value=N(hi))
+    x, y, b = Decl("x", dims=(hi,)), Decl("y", dims=(SIZE,)), Decl("b")
+    xi = ("idx", "x", (var,))
+    yr = [("idx", "y", (sub,)) for sub in subs]
+    fl = list(funcs.values())
+    loop = lambda body: ("for", var[1], N(lo), V("n"), body)  # noqa: E731
+    if kind == "rhs":
+        return Model("M", [pn, x, y], [loop([("eq", xi, _weighted(yr))])], funcs=fl)
+    if kind in ("lhs", "der", "init"):
+        lhs = ("der", yr[0]) if kind == "der" else yr[0]
+        rhs = B("+", B("*", N(2), _weighted(yr[1:])), xi) if len(yr) > 1 else xi
+        eq = loop([("eq", lhs, rhs)])
+        if kind == "init":
+            return Model("M", [pn, x, y, b], [("eq", V("b"), N(1))], [eq], funcs=fl)
+        return Model("M", [pn, x, y], [eq], funcs=fl)
+    if kind == "call":
+        rhs = ("call", "g", (yr[0],))
+        if len(yr) > 1:
+            rhs = B("-", rhs, B("*", N(2), _weighted(yr[1:])))
+        return Model("M", [pn, x, y], [loop([("eq", xi, rhs)])], funcs=fl + [REAL_G])
+    if kind in ("col", "row"):
+        w = Decl("w", dims=(SIZE, 2) if kind == "col" else (2, SIZE))
+        wr = [("idx", "w", (sub, N(2)) if kind == "col" else (N(2), sub)) for sub in subs]
+        return Model("M", [pn, x, w], [loop([("eq", xi, _weighted(wr))])], funcs=fl)
+    if kind in ("nested-value", "nested-index"):
+        extra = V("o") if kind == "nested-value" else ("idx", "y", (V("o"),))
+        inner = loop([("eq", xi, B("+", _weighted(yr), extra))])
+        return Model("M", [pn, x, y], [("for", "o", N(1), N(2), [inner])], funcs=fl)
+    if kind == "fstmt":
+        v = Decl("v", dims=(SIZE,))
+        vr = [("idx", "v", (sub,)) for sub in subs]
+        term = B("*", var, vr[0]) if len(vr) == 1 else B("+", B("*", var, vr[0]), B("*", N(2), _weighted(vr[1:])))
+        h = Func("h", [v], [Decl("s")], [], [("assign", V("s"), N(0)), ("forst", "k", N(lo), N(hi), [("assign", V("s"), B("+", V("s"), term))])])
+        return Model("M", [Decl("c"), y], [("eq", V("c"), ("call", "h", (V("y"),)))], funcs=fl + [h])
+    raise ValueError(kind)
+
+
+def fam_index(tier):
+    names = [nm for nm, _ in index_forms()]
+    plans = []  # (kind, number of subscripts, lower bounds, function variant)
+    for kind in ("rhs", "lhs", "der"):
+        plans.append((kind, 1, (2,), "lin"))
+    for kind in KINDS_QUICK:
+        plans.append((kind, 2, (2,), "lin"))
+    if tier == "thorough":
+        for kind in ("rhs", "lhs", "der"):
+            plans.append((kind, 1, (1,), "lin"))
+        for kind in KINDS_QUICK:
+            plans.append((kind, 2, (1,), "lin"))
+        for kind in KINDS_MORE:
+            plans.append((kind, 2, (1, 2), "lin"))
+        plans.append(("rhs", 2, (1, 2), "quad"))
+        plans.append(("rhs", 3, (2,), "lin"))
+    out, skipped = [], 0
+    for kind, nsub, los, fv in plans:
+        for combo in itertools.product(names, repeat=nsub):
+            if fv != "lin" and not any(nm.startswith("f(") for nm in combo):
+                continue  # the same text as the "lin" plan
+            for lo in los:
+                for length in (1, 2, 3, 4):
+                    m = index_model(kind, combo, lo, length, fv)
+                    if m is None:
+                        skipped += 1
+                        continue
+                    m.forms = combo
+                    out.append(("index-" + kind, m))
+    fam_index.skipped = skipped
+    return out
+
+
+def index_values(model, point, seed):
+    """Grid point for the loop-index models: every array element a different non-integer value (so that a
+    wrong element, a swapped pair or a reused element changes a weighted sum), both signs."""
+    env = {}
+    funcs = {f.name: f for f in model.funcs}
+    shift = 0.0625 * ((point * 7 + seed * 3) % 13)
+    for k, d in enumerate(model.decls):
+        if d.prefix in ("parameter", "constant") and d.value is not None:
+            env[d.name] = M.evn(d.value, env, funcs)
+            continue
+        dims = tuple(int(M.evn(x, env, funcs)) if isinstance(x, tuple) else int(x) for x in d.dims)
+        n = int(np.prod(dims)) if dims else 1
+        for name, off in ((d.name, 0.0), ("der(%s)" % d.name, 0.4375)):
+            vals = [(-1) ** (j + point) * (1.75 + 1.25 * j + 0.3125 * k) + shift + off for j in range(n)]
+            env[name] = np.array(vals).reshape(dims) if dims else vals[0]
+    env["time"] = 0.5 + point
+    return env
+
+
+NO_REFERENCE = ("delay", "delay-in-loop")  # delay() is outside the reference evaluator
+
+
 def models(tier):
-    ms = c11.fam_for(tier) + c11.fam_functions(tier) + extra_models()
+    ms = c11.fam_for(tier) + c11.fam_functions(tier) + extra_models() + fam_index(tier)
     return ms
 
 
@@ -51,19 +218,48 @@ def snapshot(m):
     return {"variables": vs, "outputs": list(m.outputs), "delay_states": list(m.delay_states)}
 
 
-def evaluate(m, values):
+def functions(m):
+    """The four output functions, built once per generated model (each access of the property rebuilds it)."""
+    return {name: getattr(m, name + "_function") for name in ("dae_residual", "initial_residual", "delay_arguments", "variable_metadata")}
+
+
+def evaluate(m, values, fs=None):
     import casadi as ca
 
+    fs = fs or functions(m)
     args = cas.arg_vectors(m, values, time=values.get("time", 0.0), default=0.3)
     out = {}
     for name in ("dae_residual", "initial_residual", "delay_arguments"):
-        f = getattr(m, name + "_function")
-        out[name] = [np.array(x).flatten(order="F").tolist() for x in cas.call(f, args)]
+        out[name] = [np.array(x).flatten(order="F").tolist() for x in cas.call(fs[name], args)]
     pv = []
     for v in m.parameters:
         pv += cas.flat(values.get(v.symbol.name(), 0.3), v.symbol.shape)
-    out["variable_metadata"] = [np.array(ca.DM(o)).tolist() for o in m.variable_metadata_function(ca.DM(pv))]
+    out["variable_metadata"] = [np.array(ca.DM(o)).tolist() for o in fs["variable_metadata"](ca.DM(pv))]
     return out
+
+
+def generate_all(text, name):
+    """setting -> generated and simplified model, or the exception.  The text is parsed once (uncached) and
+    every setting works on its own unpickled copy of the tree, as pymoca's parse cache would hand it out."""
+    import pickle
+
+    from pymoca import parser
+    from pymoca.backends.casadi import generator
+
+    tree = parser.parse(text, bypass_cache=True)
+    if tree is None:
+        raise SyntaxError("pymoca reports a syntax error")
+    blob = pickle.dumps(tree)
+    built = {}
+    for setting in itertools.product((True, False), repeat=3):
+        opts = dict(zip(OPTS, setting))
+        try:
+            m = generator.generate(pickle.loads(blob), name, dict(opts))
+            m.simplify(opts)
+            built[setting] = m
+        except Exception as e:
+            built[setting] = e
+    return built
 
 
 def close(a, b):
@@ -76,82 +272,169 @@ def close(a, b):
     return abs(a - b) <= 1e-9 * max(1.0, abs(a), abs(b))
 
 
+def reference(model, env):
+    """Reference residual segments (dae, initial), one per top-level equation; None where undefined."""
+    funcs = {f.name: f for f in model.funcs}
+    try:
+        return {"dae_residual": M.residuals(model.eqs, env, funcs), "initial_residual": M.residuals(model.init_eqs, env, funcs)}
+    except X.Undefined:
+        return None
+
+
+def against_reference(vals, ref):
+    """Name of the first residual function that is not the reference's, top-level equation by equation
+    (entries of one equation as a multiset: the order inside a loop is representation), or None."""
+    for name in ("dae_residual", "initial_residual"):
+        got = vals[name][0] if vals[name] else []
+        segs = ref[name]
+        if len(got) != sum(len(g) for g in segs):
+            return name, got, [g.tolist() for g in segs]
+        pos = 0
+        for g in segs:
+            if not M.same_multiset(got[pos : pos + len(g)], g):
+                return name, got[pos : pos + len(g)], g.tolist()
+            pos += len(g)
+    return None
+
+
+def tag_of(setting):
+    return ",".join("%s=%s" % (o, v) for o, v in zip(OPTS, setting) if v != dict(zip(OPTS, DEFAULT))[o]) or "default"
+
+
 def check(job):
     fam, model, seed = job
     text = model.text()
     case = {"text": text}
-    built = {}
-    for setting in itertools.product((True, False), repeat=3):
-        opts = dict(zip(OPTS, setting))
-        try:
-            m = cas.generate(text, model.name, opts)
-            m.simplify(opts)
-            built[setting] = m
-        except Exception as e:
-            built[setting] = e
+    forms = getattr(model, "forms", None)
+    label = "%s%s" % (text, " subscript forms %r" % (forms,) if forms else "")
+    try:
+        built = generate_all(text, model.name)
+    except Exception as e:
+        return {"viol": [("parse-raises:%s:%s" % (fam, common.exc_sig(e)), "the model does not parse: %r\n%s" % (e, label), case)], "n": 0, "nref": 0}
     base = built[DEFAULT]
     if isinstance(base, Exception):
-        return {"viol": [("default-raises:%s:%s" % (fam, common.exc_sig(base)), "default options do not generate: %r\n%s" % (base, text), case)], "n": 0}
+        return {"viol": [("default-raises:%s:%s" % (fam, common.exc_sig(base)), "default options do not generate: %r\n%s" % (base, label), case)], "n": 0, "nref": 0}
     viol = []
     snap0 = snapshot(base)
-    points = [c11.values_for(model, p, seed) for p in range(3)]
+    values = index_values if fam.startswith("index-") else c11.values_for
+    points = [values(model, p, seed) for p in range(3)]
+    refs = [reference(model, env) if fam not in NO_REFERENCE else None for env in points]
     try:
-        vals0 = [evaluate(base, env) for env in points]
+        fs0 = functions(base)
+        vals0 = [evaluate(base, env, fs0) for env in points]
     except Exception as e:
-        return {"viol": [("default-eval-raises:" + fam, "cannot evaluate the default model: %r\n%s" % (e, text), case)], "n": 0}
-    n = 0
+        return {"viol": [("default-eval-raises:" + fam, "cannot evaluate the default model: %r\n%s" % (e, label), case)], "n": 0, "nref": 0}
+    n = nref = 0
+    off = {}  # setting -> (function name, got, want) where the setting is not the reference
+    for env, v0, ref in zip(points, vals0, refs):
+        if ref is not None:
+            nref += 1
+            bad = against_reference(v0, ref)
+            if bad and DEFAULT not in off:
+                off[DEFAULT] = bad
     for setting, m in built.items():
         if setting == DEFAULT:
             continue
-        tag = ",".join("%s=%s" % (o, v) for o, v in zip(OPTS, setting) if v != dict(zip(OPTS, DEFAULT))[o])
+        tag = tag_of(setting)
         if isinstance(m, Exception):
-            viol.append(("option-raises:%s:%s:%s" % (fam, tag, common.exc_sig(m)), "with %s the model no longer generates: %r\n%s" % (tag, m, text), case))
+            viol.append(("option-raises:%s:%s:%s" % (fam, tag, common.exc_sig(m)), "with %s the model no longer generates: %r\n%s" % (tag, m, label), case))
             continue
         n += 1
         snap = snapshot(m)
         for k in snap0:
             if snap[k] != snap0[k]:
-                viol.append(("variables-differ:%s:%s:%s" % (fam, tag, k), "with %s %s are %r, default %r\n%s" % (tag, k, snap[k], snap0[k], text), case))
-        for env, v0 in zip(points, vals0):
+                viol.append(("variables-differ:%s:%s:%s" % (fam, tag, k), "with %s %s are %r, default %r\n%s" % (tag, k, snap[k], snap0[k], label), case))
+        differs = False
+        fs = None
+        for env, v0, ref in zip(points, vals0, refs):
             try:
-                v = evaluate(m, env)
+                fs = fs or functions(m)
+                v = evaluate(m, env, fs)
             except Exception as e:
-                viol.append(("option-eval-raises:%s:%s" % (fam, tag), "with %s the functions cannot be evaluated: %r\n%s" % (tag, e, text), case))
+                viol.append(("option-eval-raises:%s:%s" % (fam, tag), "with %s the functions cannot be evaluated: %r\n%s" % (tag, e, label), case))
                 break
             bad = [k for k in v0 if not close(v[k], v0[k])]
-            if bad:
-                viol.append(("function-differs:%s:%s:%s" % (fam, tag, "+".join(bad)), "with %s %s gives %r, default gives %r\n%s" % (tag, bad[0], v[bad[0]], v0[bad[0]], text), case))
-                break
-    return {"viol": viol, "n": n}
+            if bad and not differs:
+                differs = True
+                viol.append(("function-differs:%s:%s:%s" % (fam, tag, "+".join(bad)), "with %s %s gives %r, default gives %r\n%s" % (tag, bad[0], v[bad[0]], v0[bad[0]], label), case))
+            if ref is not None and setting not in off:
+                r = against_reference(v, ref)
+                if r:
+                    off[setting] = r
+    if off:
+        # the differential oracle is blind to a fault shared by the default (or by every) setting: say
+        # which settings leave the reference meaning
+        everyone = len(off) == len([m for m in built.values() if not isinstance(m, Exception)])
+        who = "all-settings" if everyone else "+".join(sorted(tag_of(s) for s in off))
+        if len(who) > 80:
+            who = "%d-settings" % len(off)
+        name, got, want = off[DEFAULT] if DEFAULT in off else off[sorted(off)[0]]
+        viol.append(
+            (
+                "reference-differs:%s:%s:%s" % (fam, who, name),
+                "%s (settings leaving the reference: %s) has entries %r for a top-level equation whose Modelica residual is %r\n%s"
+                % (name, who, [round(float(x), 9) for x in got], [round(float(x), 9) for x in np.ravel(np.array(want, dtype=object)).tolist()] if not isinstance(want[0] if want else 0, list) else want, label),
+                case,
+            )
+        )
+    return {"viol": viol, "n": n, "nref": nref}
 
 
 def run(ctx):
     ms = models(ctx.tier)
     with common.Pool() as pool:
-        res = pool.map(check, [(f, m, ctx.seed) for f, m in ms], chunksize=2)
-    n = 0
+        res = pool.map(check, [(f, m, ctx.seed) for f, m in ms], chunksize=8)
+    n = nref = 0
     per = {}
     for (fam, m), r in zip(ms, res):
         n += r["n"]
+        nref += r["nref"]
         per[fam] = per.get(fam, 0) + 1
         for sig, msg, case in r["viol"]:
             ctx.violation(sig, msg, case)
     for k in (0, len(ms) // 2, len(ms) - 1):
         ctx.sample({"family": ms[k][0], "model": ms[k][1].text()})
+    nforms = len(index_forms())
     ctx.coverage.update(
         {
             "evaluations": n * 3,
+            "reference_points": nref,
             "programs": len(ms),
             "distinct_nontrivial": len({m.text() for _, m in ms}),
             "configurations_per_program": 8,
             "per_family": per,
+            "subscript_forms": [nm for nm, _ in index_forms()],
+            "index_models_outside_bounds_skipped": fam_index.skipped,
             "exhaustive": True,
-            "rule": "all 8 settings of (unroll_loops, inline_functions, expand_mx) for every for-equation and function model of the C11 "
-            "families plus loop-with-function-call, delay and delay-in-loop models; each non-default setting is compared with the "
-            "default: variable lists/order/types/attributes/outputs/delay states identical, dae_residual, initial_residual, "
-            "variable_metadata and delay_arguments functions equal on 3 grid points. Every model has a loop, a call or a delay.",
+            "rule": "all 8 settings of (unroll_loops, inline_functions, expand_mx) for (a) every for-equation and function model of the C11 "
+            "families plus loop-with-function-call, delay and delay-in-loop models and (b) the loop-index families: a loop over lo:n "
+            "(n an Integer parameter, lo = 2 so that v-1 is a valid subscript, 1..4 iterations) whose body references one array of %d elements through 1 or 2 "
+            "subscripts, every ordered pair of the %d forms (v, v+1, v-1, 2*v, n+1-v, v*v, v*(v+1)/2, f(v), f(v)+1, f(v)-1; f a user "
+            "function of Integer type) in the body kinds rhs (x[v] = y[A] + 2*y[B]), lhs (y[A] = 2*y[B] + x[v]), "
+            "der (der(y[A]) = ...), call (x[v] = g(y[A]) - 2*y[B]) and fstmt (for-statement of a function over an array input)%s; "
+            "models with a subscript outside 1..%d are left out.  Each non-default setting is compared with the default: variable "
+            "lists/order/types/attributes/outputs/delay states identical, dae_residual, initial_residual, variable_metadata and "
+            "delay_arguments functions equal on 3 grid points; every setting's residuals are also compared with the reference "
+            "evaluator per top-level equation (all models but the delay ones).  Every model has a loop, a call or a delay."
+            % (
+                SIZE,
+                nforms,
+                "; thorough adds lo = 1 for every kind, the kinds col / row (2-D array, w[A, 2] / w[2, A]), init (initial "
+                "for-equation), nested-value / nested-index (inner loop of a two-iteration outer loop, outer variable as value / as "
+                "plain subscript), a non-linear f, and every ordered triple of forms in kind rhs"
+                if ctx.tier == "thorough"
+                else "",
+                SIZE,
+            ),
         }
     )
+    ctx.assumptions += [
+        "the default setting's meaning is C11's subject; the reference comparison is added so that a fault shared by the default "
+        "setting (or by all settings) in the loop-index alphabet, which C11 does not enumerate, is not invisible to the differential oracle",
+        "entries inside one top-level equation are compared with the reference as a multiset; between settings they are compared in order",
+        "nested loops only in the subset pymoca generates: subscripts of the inner body use the inner variable, the outer variable "
+        "appears as a value or as a plain subscript",
+    ]
 
 
 def replay(case):
